@@ -21,6 +21,48 @@ def prop_module(pid):
     return importlib.import_module("menpolint.props.%s" % pid.lower())
 
 
+_ANCHORS = None
+
+
+def _anchors():
+    global _ANCHORS
+    if _ANCHORS is None:
+        path = os.path.join(os.path.dirname(os.path.abspath(__file__)), "anchors.json")
+        try:
+            with open(path) as f:
+                _ANCHORS = json.load(f)
+        except Exception:
+            _ANCHORS = {}
+    return _ANCHORS
+
+
+def anchor_filter(prop, result):
+    """A violation reported in a function most of whose anchor locals (the local names the rules' patterns
+    rely on, recorded from the clean tree) have vanished is a lost anchor: ANALYSIS-ERROR, not a violation."""
+    from .astutil import Defs
+    import ast as _ast
+    table = _anchors().get(prop, {})
+    keep = []
+    for f in result.findings:
+        names = table.get(f.construct)
+        node = getattr(f, "func_node", None)
+        if not names or node is None:
+            keep.append(f)
+            continue
+        locs = set(Defs(node).defs)
+        for sub in _ast.walk(node):
+            if isinstance(sub, (_ast.FunctionDef, _ast.AsyncFunctionDef)) and sub is not node:
+                locs |= set(Defs(sub).defs)
+        missing = [n for n in names if n not in locs]
+        if len(missing) >= max(1, (len(names) + 1) // 2):
+            result.error("%s: %s is no longer recognised: %d of the %d local names the rule's patterns rely on (%s) no longer exist in it "
+                         "(renamed or refactored); the rule needs re-confirmation, no verdict" % (f.rule, f.construct.split(".")[-1], len(missing), len(names), ", ".join(missing[:6])))
+        else:
+            keep.append(f)
+    result.findings[:] = keep
+    return result
+
+
 def run_rules(mod, project, tier="quick", result=None):
     result = result or Result(mod.PROP, tier)
     rules = list(mod.RULES)
@@ -36,6 +78,7 @@ def run_rules(mod, project, tier="quick", result=None):
         except Exception as e:  # a crash of the analysis is never a verdict
             tb = traceback.extract_tb(sys.exc_info()[2])[-1]
             result.error("%s: internal error %s: %s (%s:%d)" % (fn.__name__, type(e).__name__, e, os.path.basename(tb.filename), tb.lineno))
+    anchor_filter(mod.PROP, result)
     return result
 
 
